@@ -475,6 +475,6 @@ func TestC18(t *testing.T) {
 			"Non-trivial: some reader observed >= 2 different versions (the writer really interleaved). Distinct by hash of the workload JSON.",
 		Assumptions: []string{"schedules are sampled by the Go scheduler, not enumerated; a race needing one specific preemption can be missed"},
 		Gen:         genC18, Run: runC18,
-		QuickChecks: 60, ThoroughFactor: 10,
+		QuickChecks: 150, ThoroughFactor: 4,
 	})
 }
